@@ -223,8 +223,9 @@ def run(ctx):
                     raise_ok = (isinstance(arg, ast.BinOp) and isinstance(arg.op, ast.Mod)
                                 and isinstance(arg.left, ast.Subscript)
                                 and isinstance(arg.left.value, ast.Name) and arg.left.value.id == "E")
-    r.check("R16.2", idx_append is not None and idx_raise is not None and idx_append < idx_raise and raise_ok,
-            "record-then-raise", pe.where,
+    r.idiom("R16.2", idx_append is not None and idx_raise is not None and idx_append < idx_raise and raise_ok,
+            "record-then-raise", pe.where, wrong=[(idx_append is not None and idx_raise is not None and idx_append > idx_raise, None),
+                                                 (idx_append is None and idx_raise is not None, "parseError raises without recording the error")], msg=
             "parseError must append to self.errors before `if self.strict: raise ParseError(E[code] %% vars)` "
             "(append@%s raise@%s formatted=%s)" % (idx_append, idx_raise, raise_ok))
     # ParseError is an Exception subclass defined in html5parser and E is constants.E
@@ -249,8 +250,12 @@ def run(ctx):
                         found = True
     env = ce.local_env(ml.node, ml.module)
     tt = ce.const("constants.py", "tokenTypes")
-    r.check("R16.2", found and env.get("ParseErrorToken") == tt["ParseError"], "mainLoop-forward", ml.where,
-            "mainLoop no longer forwards ParseError tokens (data, datavars) to parseError")
+    fwd_calls = [c for n in ast.walk(ml.node) if isinstance(n, ast.If) and "ParseErrorToken" in norm(n.test)
+                 for c in ast.walk(ast.Module(body=n.body, type_ignores=[])) if isinstance(c, ast.Call) and norm(c.func).endswith("parseError")]
+    r.idiom("R16.2", found and env.get("ParseErrorToken") == tt["ParseError"], "mainLoop-forward", ml.where,
+            "mainLoop no longer forwards ParseError tokens (data, datavars) to parseError",
+            wrong=[(len(fwd_calls) == 1 and len(fwd_calls[0].args) < 2 and not fwd_calls[0].keywords,
+                    "ParseError tokens are forwarded without their datavars: templates with placeholders raise KeyError in strict mode")])
     # tokenizer __iter__: drains stream.errors before queued tokens of each step
     it = repo.func("_tokenizer.py", "HTMLTokenizer.__iter__")
     whiles = [n for n in ast.walk(it.node) if isinstance(n, ast.While)]
@@ -270,7 +275,7 @@ def run(ctx):
             pos["errors"] = w.lineno
         elif ch == ["self", "tokenQueue"]:
             pos["queue"] = w.lineno
-    r.check("R16.2", "errors" in pos and "queue" in pos and pos["errors"] < pos["queue"], "tokenizer-drain",
+    r.idiom("R16.2", "errors" in pos and "queue" in pos and pos["errors"] < pos["queue"], "tokenizer-drain",
             it.where, "HTMLTokenizer.__iter__ must yield stream errors (then queued tokens) after each state step")
 
     # ---- R16.3 swallowing handlers
